@@ -4,6 +4,10 @@ import RedisVerif.Lemmas.Conn
 /-
   C04 — pipelining: exactly one reply per command, in order, however the bytes arrive.
 
+  (The recognisers' length arithmetic is `checked_add` and the generic decoder is the repaired
+  `codec1` after the fix commits: `cfg14`.  `cfgPinned` is the configuration of the pinned code —
+  wrapping arithmetic, `codec1Pinned` — for the counterexamples about the behaviour before the fixes.)
+
   Theorems about `Conn.run` (Model/Conn.lean), the transcription of the read loop of
   `OptimizedConnectionHandler` with its batching gate, the two collectors, the fast path and the
   generic decoder, INCLUDING the constant `HEADER_LEN = 14` as written: the model is parameterised
@@ -28,11 +32,6 @@ def replyCount : List Action → Nat
   | .dropped _ :: rest => replyCount rest
   | .crash :: _ => 0
 
-def hasCrash : List Action → Bool
-  | [] => false
-  | .crash :: _ => true
-  | _ :: rest => hasCrash rest
-
 def hasDropped : List Action → Bool
   | [] => false
   | .dropped _ :: _ => true
@@ -44,7 +43,10 @@ def cmdPing : Cmd := [[80, 73, 78, 71]]
 
 /-- default thresholds (`min_pipeline_buffer` 60, `batch_threshold` 2) with the constant as written -/
 def cfg14 : Config := { minPipeline := 60, batchThreshold := 2, headerLen := 14, readSize := 8192,
-                        maxBuffer := 1000000, env := { depth := 64, mem := 1073741824 } }
+                        maxBuffer := 1000000, checked := true, codec := codec1,
+                        env := { depth := 64, mem := 1073741824 } }
+/-- the code before the fix commits: wrapping length arithmetic, the pinned decoder -/
+def cfgPinned : Config := { cfg14 with checked := false, codec := codec1Pinned }
 /-- the same with the constant "fixed" to the real header length -/
 def cfg13 : Config := { cfg14 with headerLen := 13 }
 
@@ -54,21 +56,21 @@ def cfg13 : Config := { cfg14 with headerLen := 13 }
     well-formed pipeline, under every batching configuration, executes every command exactly
     once, in order (on the generic path) -/
 def C04_segmentation_independent (h : Nat) : Prop :=
-  ∀ (cfg : Config), cfg.headerLen = h → 1 ≤ cfg.env.depth →
+  ∀ (cfg : Config), cfg.headerLen = h → cfg.codec = codec1 → 1 ≤ cfg.env.depth →
   ∀ (cmds : List Cmd) (segs : List Bytes), segs.flatten = stream cmds →
     Small (stream cmds) → (stream cmds).length ≤ cfg.maxBuffer → (∀ c ∈ cmds, CmdOK cfg.env c) →
     run cfg segs = execAll cmds
 
 /-- the code as it is (HEADER_LEN = 14) -/
 theorem segmentation_independent : C04_segmentation_independent 14 :=
-  fun cfg h14 hd cmds segs h hs hmax hok => run_wf cfg h14 hd cmds segs h hs hmax hok
+  fun cfg h14 hc hd cmds segs h hs hmax hok => run_wf cfg h14 hc hd cmds segs h hs hmax hok
 
 /-- with HEADER_LEN = 13 the collectors come alive: six pipelined `GET k` in one segment are
     executed as a batch, but ONE `GET k` in a 60-byte buffer (here: followed by three PINGs) is
     consumed by `collect_get_keys`, found to be fewer than `batch_threshold`, and never answered -/
 theorem header13_counterexample : ¬ C04_segmentation_independent 13 := by
   intro h
-  have := h cfg13 rfl (by decide) [cmdGetK, cmdPing, cmdPing, cmdPing]
+  have := h cfg13 rfl rfl (by decide) [cmdGetK, cmdPing, cmdPing, cmdPing]
     [stream [cmdGetK, cmdPing, cmdPing, cmdPing]] (by simp) (by decide) (by decide) (by decide)
   have hc : replyCount (run cfg13 [stream [cmdGetK, cmdPing, cmdPing, cmdPing]]) = 3 := by decide
   rw [this] at hc
@@ -85,31 +87,32 @@ theorem replies_execAll_length : ∀ (s : ExSt) (cmds : List Cmd), (replies s (e
     rw [this]
 
 /-- exactly one reply per command -/
-theorem one_reply_per_command (cfg : Config) (h14 : cfg.headerLen = 14) (hd : 1 ≤ cfg.env.depth)
+theorem one_reply_per_command (cfg : Config) (h14 : cfg.headerLen = 14) (hc : cfg.codec = codec1) (hd : 1 ≤ cfg.env.depth)
     (cmds : List Cmd) (segs : List Bytes) (h : segs.flatten = stream cmds)
     (hs : Small (stream cmds)) (hmax : (stream cmds).length ≤ cfg.maxBuffer) (hok : ∀ c ∈ cmds, CmdOK cfg.env c) :
     (replies ExSt.init (run cfg segs)).length = cmds.length := by
-  rw [segmentation_independent cfg h14 hd cmds segs h hs hmax hok]
+  rw [segmentation_independent cfg h14 hc hd cmds segs h hs hmax hok]
   exact replies_execAll_length _ _
 
 /-- … each equal to the reply the command gets when every command arrives alone, in its own
     segment, under any other configuration -/
 theorem replies_as_sent_alone (cfg cfg' : Config) (h14 : cfg.headerLen = 14) (h14' : cfg'.headerLen = 14)
+    (hc : cfg.codec = codec1) (hc' : cfg'.codec = codec1)
     (hd : 1 ≤ cfg.env.depth) (hd' : 1 ≤ cfg'.env.depth)
     (cmds : List Cmd) (segs : List Bytes) (h : segs.flatten = stream cmds)
     (hs : Small (stream cmds)) (hmax : (stream cmds).length ≤ cfg.maxBuffer) (hmax' : (stream cmds).length ≤ cfg'.maxBuffer)
     (hok : ∀ c ∈ cmds, CmdOK cfg.env c) (hok' : ∀ c ∈ cmds, CmdOK cfg'.env c) (s : ExSt) :
     replies s (run cfg segs) = replies s (run cfg' (cmds.map encCmd)) := by
-  rw [segmentation_independent cfg h14 hd cmds segs h hs hmax hok,
-    segmentation_independent cfg' h14' hd' cmds (cmds.map encCmd) rfl hs hmax' hok']
+  rw [segmentation_independent cfg h14 hc hd cmds segs h hs hmax hok,
+    segmentation_independent cfg' h14' hc' hd' cmds (cmds.map encCmd) rfl hs hmax' hok']
 
 /-- which path carried a command cannot matter: on well-formed input the batch collectors and the
     fast path never carry one (they are dead code for well-formed frames because of HEADER_LEN = 14) -/
-theorem path_irrelevant (cfg : Config) (h14 : cfg.headerLen = 14) (hd : 1 ≤ cfg.env.depth)
+theorem path_irrelevant (cfg : Config) (h14 : cfg.headerLen = 14) (hc : cfg.codec = codec1) (hd : 1 ≤ cfg.env.depth)
     (cmds : List Cmd) (segs : List Bytes) (h : segs.flatten = stream cmds)
     (hs : Small (stream cmds)) (hmax : (stream cmds).length ≤ cfg.maxBuffer) (hok : ∀ c ∈ cmds, CmdOK cfg.env c) :
     ∀ a ∈ run cfg segs, ∃ f, a = .exec f .generic := by
-  rw [segmentation_independent cfg h14 hd cmds segs h hs hmax hok]
+  rw [segmentation_independent cfg h14 hc hd cmds segs h hs hmax hok]
   intro a ha
   simp only [execAll, List.mem_map] at ha
   obtain ⟨c, _, hc⟩ := ha
@@ -124,8 +127,7 @@ example : CmdOK cfg14.env cmdGetK ∧ Small (stream [cmdGetK, cmdPing]) ∧
 
 /-- full statement: arbitrary bytes after a well-formed pipeline never crash the connection, never
     make it swallow a frame, and leave the actions for the pipeline untouched -/
-def C04_malformed_is_error (h : Nat) : Prop :=
-  ∀ (cfg : Config), cfg.headerLen = h → 1 ≤ cfg.env.depth →
+def C04_malformed_is_error (cfg : Config) : Prop :=
   ∀ (cmds : List Cmd) (junk : Bytes) (segs : List Bytes), segs.flatten = stream cmds ++ junk →
     Small (stream cmds ++ junk) → (stream cmds ++ junk).length ≤ cfg.maxBuffer → (∀ c ∈ cmds, CmdOK cfg.env c) →
     hasCrash (run cfg segs) = false ∧ hasDropped (run cfg segs) = false ∧
@@ -137,53 +139,60 @@ def getLookalike : Bytes := [42, 50, 13, 10, 36, 51, 13, 10, 71, 69, 84, 13, 10,
 def getHugeLen : Bytes := [42, 50, 13, 10, 36, 51, 13, 10, 71, 69, 84, 13, 10, 88, 36,
   49, 56, 52, 52, 54, 55, 52, 52, 48, 55, 51, 55, 48, 57, 53, 53, 49, 54, 49, 53, 13, 10, 97, 98]
 
-/-- the recognisers index with 14 into a 13-byte header: the malformed look-alike is executed as
-    `GET k` by the fast path (a data reply, not an error) -/
-theorem malformed_accepted_counterexample :
-    replyCount (run cfg14 [getLookalike]) = 1 ∧ hasCrash (run cfg14 [getLookalike]) = false ∧
-    (parse1 cfg14.env getLookalike).out = .error .unknownType := ⟨by decide, by decide, rfl⟩
+/-- PART 1 (no crash) holds for the repaired code, for ALL bytes in ALL segmentations (no
+    well-formedness, no size hypothesis beyond `max_buffer_size < 2^56`): neither the recognisers
+    nor the decoder panic -/
+theorem malformed_no_crash (cfg : Config) (hck : cfg.checked = true) (hc : cfg.codec = codec1)
+    (hd : maxNesting + 1 ≤ cfg.env.depth) (hmax : cfg.maxBuffer < 72057594037927936) (segs : List Bytes) :
+    hasCrash (run cfg segs) = false :=
+  run_no_crash cfg hck hc hd hmax segs
 
-/-- in a buffer of at least `min_pipeline_buffer` bytes the look-alike is consumed by
-    `collect_get_keys` and, being alone (1 < batch_threshold), dropped: the client gets three
-    replies for four frames -/
-theorem malformed_silence_counterexample :
-    hasDropped (run cfg14 [getLookalike ++ stream [cmdPing, cmdPing, cmdPing]]) = true ∧
-    replyCount (run cfg14 [getLookalike ++ stream [cmdPing, cmdPing, cmdPing]]) = 3 := by decide
-
-/-- `key_start + key_len + 2` wraps for a declared length of 2^64-1, the bounds test passes, the
-    slice panics: 39 bytes crash the server -/
-theorem malformed_crash_counterexample : hasCrash (run cfg14 [getHugeLen]) = true := by decide
-
-/-- the decoder's `$-2\r\n` panic (C15) reaches the connection after a well-formed command -/
-theorem malformed_codec_crash_counterexample :
-    hasCrash (run cfg14 [stream [cmdPing], [36, 45, 50, 13, 10]]) = true ∧
-    replyCount (run cfg14 [stream [cmdPing], [36, 45, 50, 13, 10]]) = 1 := by decide
-
-/-- PARTIAL — the third part of the statement holds for the code as it is, for ALL bytes that may
-    follow (garbage, truncated frames, frames that crash the recognisers or the decoder) and all
-    segmentations: the commands of the well-formed pipeline are executed exactly once, in order,
-    before anything else happens — a malformed frame never alters replies to earlier commands -/
-theorem malformed_keeps_earlier_partial (cfg : Config) (h14 : cfg.headerLen = 14)
+/-- PART 3 (earlier replies untouched) holds for all bytes that may follow a well-formed pipeline
+    and all segmentations: the commands of the pipeline are executed exactly once, in order, before
+    anything else happens -/
+theorem malformed_keeps_earlier (cfg : Config) (h14 : cfg.headerLen = 14) (hc : cfg.codec = codec1)
     (cmds : List Cmd) (junk : Bytes) (segs : List Bytes) (h : segs.flatten = stream cmds ++ junk)
     (hs : Small (stream cmds ++ junk)) (hmax : (stream cmds ++ junk).length ≤ cfg.maxBuffer)
     (hok : ∀ c ∈ cmds, CmdOK cfg.env c) :
     (run cfg segs).take cmds.length = execAll cmds := by
-  obtain ⟨tail, ht⟩ := run_junk cfg h14 cmds junk segs h hs hmax hok
+  obtain ⟨tail, ht⟩ := run_junk cfg h14 hc cmds junk segs h hs hmax hok
   rw [ht]
   have : (execAll cmds).length = cmds.length := by simp [execAll]
   rw [← this, List.take_left']
   rfl
 
-/-- non-vacuity: PING, then the frame that crashes the recogniser, cut in the middle -/
-example : CmdOK cfg14.env cmdPing ∧ Small (stream [cmdPing] ++ getHugeLen) ∧
-    hasCrash (run cfg14 [stream [cmdPing] ++ getHugeLen.take 20, getHugeLen.drop 20]) = true ∧
-    replyCount (run cfg14 [stream [cmdPing] ++ getHugeLen.take 20, getHugeLen.drop 20]) = 1 := by decide
+/-- the frames that crashed the pinned code get a protocol error now, after the reply to PING -/
+example : hasCrash (run cfg14 [stream [cmdPing] ++ getHugeLen.take 20, getHugeLen.drop 20]) = false ∧
+    replyCount (run cfg14 [stream [cmdPing] ++ getHugeLen.take 20, getHugeLen.drop 20]) = 2 ∧
+    replyCount (run cfg14 [stream [cmdPing], [36, 45, 50, 13, 10]]) = 2 := by decide
 
-theorem malformed_is_error_counterexample : ¬ C04_malformed_is_error 14 := by
+/-- PART 2 (no silence) still FAILS — known finding, not repaired: the recognisers index with 14 into
+    a 13-byte header, so the malformed look-alike is executed as `GET k` by the fast path (a data
+    reply, not an error) … -/
+theorem malformed_accepted_counterexample :
+    replyCount (run cfg14 [getLookalike]) = 1 ∧ hasCrash (run cfg14 [getLookalike]) = false ∧
+    (parse1 cfg14.env getLookalike).out = .error .unknownType := ⟨by decide, by decide, rfl⟩
+
+/-- … and in a buffer of at least `min_pipeline_buffer` bytes it is consumed by `collect_get_keys`
+    and, being alone (1 < batch_threshold), dropped: three replies for four frames -/
+theorem malformed_silence_counterexample :
+    hasDropped (run cfg14 [getLookalike ++ stream [cmdPing, cmdPing, cmdPing]]) = true ∧
+    replyCount (run cfg14 [getLookalike ++ stream [cmdPing, cmdPing, cmdPing]]) = 3 := by decide
+
+theorem malformed_is_error_counterexample : ¬ C04_malformed_is_error cfg14 := by
   intro h
-  have := (h cfg14 rfl (by decide) [] getHugeLen [getHugeLen] (by simp [stream]) (by decide) (by decide)
-    (by intro c hc; cases hc)).1
-  rw [malformed_crash_counterexample] at this
+  have := (h [] (getLookalike ++ stream [cmdPing, cmdPing, cmdPing]) [getLookalike ++ stream [cmdPing, cmdPing, cmdPing]]
+    (by simp [stream]) (by decide) (by decide) (by intro c hc; cases hc)).2.1
+  rw [malformed_silence_counterexample.1] at this
   exact absurd this (by decide)
+
+/-- PINNED behaviour (before fix 7196080): `key_start + key_len + 2` wrapped for a declared length of
+    2^64-1, the bounds test passed, the slice panicked: 39 bytes crashed the server -/
+theorem recogniser_overflow_pinned_counterexample : hasCrash (run cfgPinned [getHugeLen]) = true := by decide
+
+/-- PINNED behaviour (before fix 8e8c60e): the decoder's `$-2\r\n` panic reached the connection -/
+theorem codec_crash_pinned_counterexample :
+    hasCrash (run cfgPinned [stream [cmdPing], [36, 45, 50, 13, 10]]) = true ∧
+    replyCount (run cfgPinned [stream [cmdPing], [36, 45, 50, 13, 10]]) = 1 := by decide
 
 end RedisVerif.C04
